@@ -9,6 +9,7 @@ from pydantic import BaseModel, ConfigDict, Field, ValidationInfo, field_validat
 from rtflite.row import (
     BORDER_CODES,
     FORMAT_CODES,
+    ROW_JUSTIFICATION_CODES,
     TEXT_JUSTIFICATION_CODES,
     VERTICAL_ALIGNMENT_CODES,
     Border,
@@ -472,9 +473,7 @@ class TableAttributes(TextAttributes):
     )
     cell_justification: list[list[str]] = Field(
         default=[["l"]],
-        description=(
-            "Cell horizontal alignment ('l'=left, 'c'=center, 'r'=right, 'j'=justify)"
-        ),
+        description="Cell horizontal alignment ('l'=left, 'c'=center, 'r'=right)",
     )
 
     cell_vertical_justification: list[list[str]] = Field(
@@ -569,7 +568,7 @@ class TableAttributes(TextAttributes):
 
         for row in v:
             for justification in row:
-                if justification not in TEXT_JUSTIFICATION_CODES:
+                if justification not in ROW_JUSTIFICATION_CODES:
                     raise ValueError(f"Invalid cell justification: {justification}")
         return v
 
